@@ -827,6 +827,39 @@ func c02Unlink(p *Prog, r *Report) {
 							}
 						}
 					}
+					// an index loop over the whole collector: for i := 0; i < len(S); i++ { unlink(S[i]) }
+					if fs, ok := y.(*ast.ForStmt); ok && fs.Cond != nil {
+						ast.Inspect(fs.Body, func(z ast.Node) bool {
+							c, ok := z.(*ast.CallExpr)
+							if !ok {
+								return true
+							}
+							var coll ast.Expr
+							if unl.CallUses(fi, c, func(e ast.Expr) bool {
+								ix, ok := ast.Unparen(e).(*ast.IndexExpr)
+								if !ok {
+									return false
+								}
+								// the loop condition bounds the index by the length of the same slice
+								bounded := false
+								ast.Inspect(fs.Cond, func(w ast.Node) bool {
+									if lc, ok := w.(*ast.CallExpr); ok && len(lc.Args) == 1 {
+										if id, ok := lc.Fun.(*ast.Ident); ok && id.Name == "len" && f.CanonPath(lc.Args[0]) != "" && f.CanonPath(lc.Args[0]) == f.CanonPath(ix.X) {
+											bounded = true
+										}
+									}
+									return true
+								})
+								if bounded {
+									coll = ix.X
+								}
+								return bounded
+							}) && coll != nil {
+								note(f.CanonPath(coll), coll)
+							}
+							return true
+						})
+					}
 					rs, ok := y.(*ast.RangeStmt)
 					if !ok || rs.Value == nil {
 						return true
